@@ -259,8 +259,63 @@ def mk_p3(N, D, grouping=None):
   return t
 
 
+def t_sharded_select(ctx, it):
+  """Sharded variant, any declared device count: with the stacked arrays padded to N + to_pad rows (to_pad = -N % D, incl.
+  to_pad = 0) the selection block of sharded_update_fn stores, for EVERY real statistic k < N, gate(old[k], new[k],
+  error[k]) - an expression that does not mention D or to_pad."""
+  it.load_module(DS)
+  N = spec.fresh_int("N", lo=1)
+  Dv = spec.fresh_int("D", lo=1)
+  node = it.find_stmt(DS, L + "sharded_update_fn", lambda x: isinstance(x, ast.Assign) and len(x.targets) == 1 and
+                      isinstance(x.targets[0], ast.Name) and x.targets[0].id == "to_pad" and isinstance(x.value, ast.BinOp))
+  names = {x.id for x in ast.walk(node.value) if isinstance(x, ast.Name)}
+  env0 = {}
+  for nm in names:
+    if nm in ("num_devices", "num_devices_for_pjit"):
+      env0[nm] = Dv
+    elif nm == "num_statistics":
+      env0[nm] = N
+    elif nm in ("padded_statistics", "new_padded_statistics"):
+      env0[nm] = spec.fresh_seq(nm, length=N)
+    elif nm != "len":
+      raise C.Undecided(f"unexpected name {nm} in the to_pad expression of sharded_update_fn")
+  to_pad = it.eval_expr_in(DS, node.value, env0, L + "sharded_update_fn")
+  rows = N + to_pad
+  n = spec.fresh_int("n", lo=1)
+  m_ = spec.fresh_int("m", lo=1)
+  tau = spec.fresh_real("inverse_failure_threshold")
+  errs = T.opaque("errors", (rows,))
+  new = T.opaque("new_p", (rows, n, m_))
+  old = T.opaque("old_p", (rows, n, m_))
+
+  class Obj:
+    pass
+
+  metrics = Obj()
+  metrics.inverse_pth_root_errors = errs
+  gs = Obj()
+  gs.preconditioners = old
+
+  def is_assign_to(name):
+    return lambda st: isinstance(st, ast.Assign) and any(isinstance(t_, ast.Name) and t_.id == name for t_ in st.targets)
+
+  out = it.exec_block_in(DS, L + "sharded_update_fn", is_assign_to("errors"), is_assign_to("new_conditional_preconditioners"),
+                         {"metrics": metrics, "inverse_failure_threshold": tau, "new_preconditioners": new, "global_stats": gs,
+                          "to_pad": to_pad, "num_statistics": N, "num_devices_for_pjit": Dv})
+  stored = out["new_conditional_preconditioners"]
+  k = spec.fresh_int("k")
+  i = spec.fresh_int("i")
+  j = spec.fresh_int("j")
+  ctx.assume(sym.sand(k >= 0, k < N, i >= 0, i < n, j >= 0, j < m_))
+  ctx.require("sharded_update_fn.select.post.shape", len(stored.shape) == 3)
+  e = errs.at((k,))
+  ctx.oblige("sharded_update_fn.select.post: every real statistic k < N gets gate(old[k], new[k], error[k]) for any N, D (to_pad = 0 included)",
+             stored.at((k, i, j)) == sym.ite(e >= tau, old.at((k, i, j)), new.at((k, i, j))))
+
+
 def tasks(tier):
   ts = [Task(f"to_pad[{q.split('.')[-1]}]", mk_to_pad(q)) for q in TO_PAD_SITES]
+  ts.append(Task("sharded_update_fn selection for any (N, D)", t_sharded_select))
   ts.append(Task("batch[symbolic D,b]", t_batch))
   for b1, b2 in itertools.product((1, 2, 3), repeat=2):
     for er in (0, 1, 2):
